@@ -5,6 +5,10 @@
 pub struct Location { pub line: u32, pub column: u32, pub absolute: u32 }
 #[derive(Clone, Copy)]
 pub struct Span { pub start: Location, pub end: Location }
+impl Span {
+    // base::pos::Span::start (field accessor)
+    pub fn start(self) -> (r: Location) ensures r == self.start { self.start }
+}
 // token.rs Token projected: only the layout tokens are told apart
 pub enum Token { OpenBlock, CloseBlock, Semi, In, Other(u32) }
 pub struct SpannedToken { pub span: Span, pub value: Token }
